@@ -86,11 +86,11 @@ def run(ctx, eng):
                       ('open_inbound_streams',
                        'int(not self.config.client_side)')):
         fi = eng.m.func(H + prop)
-        ok = False
+        ok = cm.Every()
         for p in cm.normal_paths(eng.I.run(fi)):
             cs = cm.calls_to(p, '_open_streams')
-            ok = len(cs) == 1 and cm.show0(cs[0].args[0]) == arg and \
-                p.value == cs[0].result
+            ok(len(cs) == 1 and cm.show0(cs[0].args[0]) == arg and
+               p.value == cs[0].result)
         ctx.ob('FLOW.count', fi.qual, 'parity of counted streams', ok,
                'returns _open_streams(%s)' % arg, node=fi.node)
     fi = eng.m.func(H + '_open_streams')
@@ -134,13 +134,16 @@ def run(ctx, eng):
            'closed streams move to _closed_streams', node=fi.node)
     # ---- settings default: unbounded
     fs = eng.m.func('settings.Settings.max_concurrent_streams')
-    ok = False
+    ok = cm.Every()
     for p in cm.normal_paths(eng.I.run(fs)):
         v = p.value
-        if v[0] == 'call' and v[1].endswith('.get') and len(v[2]) == 3:
+        if v and v[0] == 'call' and v[1].endswith('.get') and \
+                len(v[2]) == 3:
             k, d = v[2][1], v[2][2]
-            ok = cm.enum_name(k) == 'MAX_CONCURRENT_STREAMS' and \
-                T.is_int_const(d) and d[1] >= 2 ** 31
+            ok(cm.enum_name(k) == 'MAX_CONCURRENT_STREAMS' and
+               T.is_int_const(d) and d[1] >= 2 ** 31)
+        else:
+            ok(False)
     ctx.ob('FLOW.limit-default', fs.qual, 'absent limit means unbounded', ok,
            'self.get(MAX_CONCURRENT_STREAMS, <a value no count can reach>) '
            '- in particular a limit of 0 stays 0', node=fs.node)
